@@ -389,3 +389,18 @@ Proof.
   - exact E.
 Qed.
 
+(* ---- the server machine as implemented, every fragmentation: the header hook accepts framed header sections only ---- *)
+Theorem server_pipeline_fragmented_real (PC : callees) (ms : list wmsg) (frags : list bytes) :
+  (forall p h, c_hdrs PC p h = HOk -> framed_h p h = true) ->
+  Forall (w_ok PC Server) ms -> Forall (fun m => no_lf (w_line m) = true) ms ->
+  concat_bytes frags = concat_bytes (map w_wire ms) ->
+  run_keep real PC Server init frags = (init, map w_delivered ms, None).
+Proof.
+  intros Hfr H Hl E.
+  apply (server_any_fragmentation PC (concat_bytes (map w_wire ms)) (map w_delivered ms) frags Hfr).
+  - apply pipeline_delivered, H.
+  - clear H E. induction ms as [|m ms IH]; cbn [map]; [constructor|].
+    inversion Hl as [|m' ms' Hm Hms]; subst. constructor; [exact Hm | exact (IH Hms)].
+  - exact E.
+Qed.
+
